@@ -4,8 +4,16 @@ package c37
 import (
 	"testing"
 
+	"github.com/uber/kraken/utils/log"
+	"go.uber.org/zap"
+
 	"verif/internal/pbt"
 )
+
+func init() {
+	// testfs logs every 4xx/5xx response; keep the check's output to verdicts.
+	log.SetGlobalLogger(zap.NewNop().Sugar())
+}
 
 func TestProp(t *testing.T) {
 	pbt.Main(t, pbt.Spec{
